@@ -19,6 +19,9 @@ one() {
   if ! (cd $W/repo && patch -p1 -s --no-backup-if-mismatch < /verif/$P) >/dev/null 2>&1; then
     echo "SELFTEST $ID $(basename $P): patch does not apply" > $RES/$N; rm -rf $W; return
   fi
+  if ! (cd $W/repo && GOFLAGS=-mod=mod GOPROXY=off GOSUMDB=off GOTOOLCHAIN=local go build ./... ) >/dev/null 2>&1; then
+    echo "SELFTEST $ID $(basename $P): mutant does not compile" > $RES/$N; rm -rf $W; return
+  fi
   out=$(VERIF_REPO=$W/repo VERIF_OUT=$W/out VERIF_EVIDENCE=$W/ev.json VERIF_NO_SELFTEST=1 ./check $ID quick 2>&1); rc=$?
   want=1
   case "$P" in *.equiv.patch) want=0;; esac
